@@ -555,9 +555,10 @@ Section Frames.
     apply set_rows_arr_ki.
   Qed.
 
-  Lemma obj_setattr_ki name value : keeps_index (obj_setattr name value).
+  Lemma obj_setattr_ki name value s :
+    bookkeeping (kind s) name = false -> index (fst (obj_setattr name value s)) = index s /\ names (fst (obj_setattr name value s)) = names s.
   Proof.
-    intros s. unfold Container.obj_setattr.
+    intros B. unfold Container.obj_setattr. rewrite B.
     destruct (String.eqb name "strict").
     - destruct (truthy value); simpl; auto.
     - destruct (String.eqb name "values"); [apply values_setter_ki|].
@@ -565,29 +566,33 @@ Section Frames.
       match goal with |- context [if ?c then _ else _] => destruct c end; simpl; auto.
   Qed.
 
-  Lemma add_attribute_ki name value : keeps_index (add_attribute name value).
+  Lemma add_attribute_ki name value s :
+    bookkeeping (kind s) name = false -> index (fst (add_attribute name value s)) = index s /\ names (fst (add_attribute name value s)) = names s.
   Proof.
-    intros s. unfold Container.add_attribute.
+    intros B. unfold Container.add_attribute.
     destruct (mem name (index s)); [simpl; auto|].
     destruct (reg_mem name (registry s)); [simpl; auto|].
-    pose proof (obj_setattr_ki name value s) as F.
+    pose proof (obj_setattr_ki name value s B) as F.
     destruct (obj_setattr name value s) as [s' [u|e]]; simpl in *; exact F.
   Qed.
 
-  Lemma setattr_ki name value hint : keeps_index (setattr name value hint).
+  Lemma setattr_ki name value hint s :
+    bookkeeping (kind s) name = false \/ mem name (index s) = true ->
+    index (fst (setattr name value hint s)) = index s /\ names (fst (setattr name value hint s)) = names s.
   Proof.
-    intros s. unfold Container.setattr.
+    intros B. unfold Container.setattr.
     match goal with |- context [if ?c then _ else _] => destruct c end.
     - destruct (alternatives hint (row_names s)) as [|a [|b r]]; simpl; auto.
-    - destruct (negb (mem name (index s))).
-      + destruct (reg_mem name (registry s)); [apply obj_setattr_ki | apply add_attribute_ki].
+    - destruct (mem name (index s)) eqn:M; cbn [negb].
       + apply setattr_var_ki.
+      + destruct B as [B|B]; [|discriminate B].
+        destruct (reg_mem name (registry s)); [apply obj_setattr_ki | apply add_attribute_ki]; exact B.
   Qed.
 
   Lemma setitem_ki k value : keeps_index (setitem k value).
   Proof.
     intros s. unfold Container.setitem. destruct k as [name|name l|name a b st| |]; try (simpl; auto; fail).
-    - destruct (negb (mem name (index s))); [simpl; auto | apply setattr_ki].
+    - destruct (mem name (index s)) eqn:Mn; cbn [negb]; [apply setattr_ki; right; exact Mn | simpl; auto].
     - destruct (negb (mem name (index s))); [simpl; auto|].
       destruct (locate (span s) l) as [p|e]; [|simpl; auto].
       destruct (assoc name (vars s)) as [v|]; [|simpl; auto].
@@ -631,39 +636,49 @@ Section Frames.
 
   (* the index grows only by the name of an accepted add_variable *)
   Theorem step_index o s :
+    in_scope (kind s) o ->
     incl (index (fst (step o s))) (index s ++ match o with AddVariable n _ _ => [n] | _ => [] end).
   Proof.
-    destruct o as [name v dt|name v hint|k v|kvs|name v|q]; simpl.
+    destruct o as [name v dt|name v hint|k v|kvs|name v|q]; simpl; intros SC.
     - destruct (add_variable_index name v dt s) as [E|E]; rewrite E; [apply incl_appl|]; apply incl_refl.
-    - rewrite (proj1 (setattr_ki name v hint s)), app_nil_r. apply incl_refl.
+    - rewrite (proj1 (setattr_ki name v hint s (or_introl SC))), app_nil_r. apply incl_refl.
     - rewrite (proj1 (setitem_ki k v s)), app_nil_r. apply incl_refl.
     - rewrite (proj1 (replace_values_ki kvs s)), app_nil_r. apply incl_refl.
-    - rewrite (proj1 (add_attribute_ki name v s)), app_nil_r. apply incl_refl.
+    - rewrite (proj1 (add_attribute_ki name v s SC)), app_nil_r. apply incl_refl.
     - rewrite read_frame, app_nil_r. apply incl_refl.
   Qed.
 
+  Lemma scope_tail o ops s : Forall (in_scope (kind s)) (o :: ops) -> in_scope (kind s) o /\ Forall (in_scope (kind (fst (step o s)))) ops.
+  Proof.
+    intros F. inversion F as [|? ? Fo Fr]; subst. split; [exact Fo|].
+    rewrite (proj2 (good_span _ _ (step_good pycast arrcast infer astype_dt itemseq_exn o s Fo))). exact Fr.
+  Qed.
+
   Theorem run_index ops : forall s x,
+    Forall (in_scope (kind s)) ops ->
     In x (index (run ops s)) -> In x (index s) \/ exists v dt, In (AddVariable x v dt) ops.
   Proof.
-    induction ops as [|o ops IH]; intros s x H; simpl in H; [left; exact H|].
-    destruct (IH _ _ H) as [H1|[v [dt H1]]]; [|right; exists v, dt; right; exact H1].
-    apply step_index in H1. apply in_app_iff in H1 as [H1|H1]; [left; exact H1|].
+    induction ops as [|o ops IH]; intros s x F H; simpl in H; [left; exact H|].
+    destruct (scope_tail _ _ _ F) as [Fo Fr].
+    destruct (IH _ _ Fr H) as [H1|[v [dt H1]]]; [|right; exists v, dt; right; exact H1].
+    apply (step_index o s Fo) in H1. apply in_app_iff in H1 as [H1|H1]; [left; exact H1|].
     destruct o; try contradiction. destruct H1 as [<-|[]]. right. eexists _, _. left. reflexivity.
   Qed.
 
   (* NO ADDITIONAL STORAGE, for a plain container and hence (alias_run_twin below) for an aliased one: a history creates a
      series only under the names it passes to add_variable - never under a name merely USED in an assignment *)
   Theorem run_no_new_series ops s k :
+    Forall (in_scope (kind s)) ops ->
     assoc k (vars s) = None -> ~ In k (index s) ->
     (forall v dt, ~ In (AddVariable k v dt) ops) ->
     assoc k (vars (run ops s)) = None /\ ~ In k (index (run ops s)).
   Proof.
-    intros A NI NA.
+    intros SC A NI NA.
     assert (NI' : ~ In k (index (run ops s))).
-    { intros C. apply run_index in C as [C|[v [dt C]]]; [exact (NI C)|exact (NA v dt C)]. }
+    { intros C. apply (run_index _ _ _ SC) in C as [C|[v [dt C]]]; [exact (NI C)|exact (NA v dt C)]. }
     split; [|exact NI'].
     destruct (assoc k (vars (run ops s))) as [v|] eqn:E; [|reflexivity]. exfalso.
-    destruct (good_vars_keys _ _ (run_good pycast arrcast infer astype_dt itemseq_exn ops s) k) as [H|H].
+    destruct (good_vars_keys _ _ (run_good pycast arrcast infer astype_dt itemseq_exn ops s SC) k) as [H|H].
     - rewrite E. discriminate.
     - rewrite A in H. apply H. reflexivity.
     - exact (NI' H).
@@ -728,8 +743,10 @@ Section Frames.
   Qed.
 
   (* the C09 invariant holds for aliased objects too, through any history *)
-  Theorem alias_run_inv am ops s : Inv s -> Inv (alias_run am ops s).
-  Proof. intros H. rewrite alias_run_twin. apply reachable_inv. exact H. Qed.
+  (* (the scope hypothesis is about the RESOLVED operations: an alias of `span` is an assignment to `span`) *)
+  Theorem alias_run_inv am ops s :
+    Forall (in_scope (kind s)) (map (resolve_op am) ops) -> Inv s -> Inv (alias_run am ops s).
+  Proof. intros SC H. rewrite alias_run_twin. apply reachable_inv; assumption. Qed.
 
   (* ... and so does "one cell per period" (resolving a name does not touch the operand) *)
   Lemma wf_resolve_op am o : wf_key_op o -> wf_key_op (resolve_op am o).
@@ -739,9 +756,10 @@ Section Frames.
     rewrite Forall_forall in H. exact (H _ Hin).
   Qed.
 
-  Theorem alias_run_invD am ops s : Forall wf_key_op ops -> InvD s -> InvD (alias_run am ops s).
+  Theorem alias_run_invD am ops s :
+    Forall wf_key_op ops -> Forall (in_scope (kind s)) (map (resolve_op am) ops) -> InvD s -> InvD (alias_run am ops s).
   Proof.
-    intros W D. rewrite alias_run_twin. apply reachable_invD; [|exact D].
+    intros W SC D. rewrite alias_run_twin. apply reachable_invD; [|exact SC|exact D].
     apply Forall_forall. intros o Hin. apply in_map_iff in Hin as [o0 [<- Hin]]. apply wf_resolve_op.
     rewrite Forall_forall in W. exact (W _ Hin).
   Qed.
@@ -749,11 +767,12 @@ Section Frames.
   (* aliases create no additional storage: through any history, no series (and no index entry) ever appears under an
      alias name, unless the caller explicitly add_variable's that very name *)
   Theorem alias_no_extra_storage am ops s k :
+    Forall (in_scope (kind s)) (map (resolve_op am) ops) ->
     In k (akeys (amap am)) -> assoc k (vars s) = None -> ~ In k (index s) ->
     (forall v dt, ~ In (AddVariable k v dt) ops) ->
     assoc k (vars (alias_run am ops s)) = None /\ ~ In k (index (alias_run am ops s)).
   Proof.
-    intros _ A NI NA. rewrite alias_run_twin. apply run_no_new_series; [exact A|exact NI|].
+    intros SC _ A NI NA. rewrite alias_run_twin. apply run_no_new_series; [exact SC|exact A|exact NI|].
     intros v dt C. apply in_map_iff in C as [o [E Hin]].
     destruct o; simpl in E; try discriminate. inversion E; subst. exact (NA _ _ Hin).
   Qed.
@@ -1006,18 +1025,18 @@ Section Export.
      alias_named_like_variable_refuted in AliasExamples.v) the export never raises, every column keeps its own data
      (same variables, same order, none dropped), no two columns get the same title, and a title is the column's
      name or one of its aliases. *)
-  Theorem export_rename_only s :
-    NoDup (base_columns s) ->
-    (forall c, In c (base_columns s) -> ~ In c (akeys a)) ->
-    exists l, export am s = Ret l /\
-      map snd l = base_columns s /\
+  Theorem export_cols_rename_only cols :
+    NoDup cols ->
+    (forall c, In c cols -> ~ In c (akeys a)) ->
+    exists l, export_cols am cols = Ret l /\
+      map snd l = cols /\
       NoDup (map fst l) /\
-      Forall2 title_ok (base_columns s) (map fst l).
+      Forall2 title_ok cols (map fst l).
   Proof.
-    intros ND NK. unfold export.
-    destruct (rename_columns_spec (base_columns s)) as [titles [R F]]. rewrite R.
-    assert (RES : map (resolve am) (base_columns s) = base_columns s).
-    { rewrite <- (map_id (base_columns s)) at 2. apply map_ext_in. intros c Hc. apply aget_nonkey. apply NK. exact Hc. }
+    intros ND NK. unfold export_cols.
+    destruct (rename_columns_spec cols) as [titles [R F]]. rewrite R.
+    assert (RES : map (resolve am) cols = cols).
+    { rewrite <- (map_id cols) at 2. apply map_ext_in. intros c Hc. apply aget_nonkey. apply NK. exact Hc. }
     rewrite RES. pose proof (forall2_length _ _ _ F) as L.
     eexists. split; [reflexivity|].
     rewrite map_snd_combine, map_fst_combine by (symmetry; exact L).
@@ -1025,13 +1044,25 @@ Section Export.
     eapply forall2_nodup; eassumption.
   Qed.
 
-  (* in every case (even with an alias named like a variable) the export has one column per exported variable and
-     never raises *)
-  Theorem export_total s : exists l, export am s = Ret l /\ length l = length (base_columns s).
+  Theorem export_rename_only s :
+    NoDup (base_columns s) ->
+    (forall c, In c (base_columns s) -> ~ In c (akeys a)) ->
+    exists l, export am s = Ret l /\
+      map snd l = base_columns s /\
+      NoDup (map fst l) /\
+      Forall2 title_ok (base_columns s) (map fst l).
+  Proof. apply export_cols_rename_only. Qed.
+
+  (* in every case (even with an alias named like a variable), whatever columns are selected (status / iterations / internal
+     variables in or out): one column per exported variable, never raises *)
+  Theorem export_cols_total cols : exists l, export_cols am cols = Ret l /\ length l = length cols.
   Proof.
-    unfold export. destruct (rename_columns_spec (base_columns s)) as [titles [R F]]. rewrite R.
+    unfold export_cols. destruct (rename_columns_spec cols) as [titles [R F]]. rewrite R.
     eexists. split; [reflexivity|]. rewrite combine_length, map_length, <- (forall2_length _ _ _ F). apply Nat.min_id.
   Qed.
+
+  Theorem export_total s : exists l, export am s = Ret l /\ length l = length (base_columns s).
+  Proof. apply export_cols_total. Qed.
 End Export.
 
 Lemma replacements_assoc am ts : forall rep c,
@@ -1315,39 +1346,41 @@ Section RowNames.
   Notation init_vars := (init_vars pycast arrcast infer astype_dt).
 
   Lemma step_names o s :
+    in_scope (kind s) o ->
     names (fst (step o s)) = names s \/
     exists name v dt, o = AddVariable name v dt /\ names (fst (step o s)) = names s ++ [name] /\ mem name (index s) = false.
   Proof.
-    destruct o as [name v dt|name v hint|k v|kvs|name v|q]; simpl.
+    destruct o as [name v dt|name v hint|k v|kvs|name v|q]; simpl; intros SC.
     - destruct (add_variable name v dt s) as [s' [u|e]] eqn:A.
       + pose proof (add_variable_appends pycast arrcast infer astype_dt name v dt s s' u A) as [_ N].
         pose proof (add_variable_ret pycast arrcast infer astype_dt name v dt s s' u A) as [_ [M _]].
         simpl. destruct (kind s); [left; rewrite N, app_nil_r; reflexivity| |];
           (right; exists name, v, dt; split; [reflexivity|split; [exact N|exact M]]).
       + apply add_variable_err in A. subst. left. reflexivity.
-    - left. exact (proj2 (setattr_ki pycast arrcast infer name v hint s)).
+    - left. exact (proj2 (setattr_ki pycast arrcast infer name v hint s (or_introl SC))).
     - left. exact (proj2 (setitem_ki pycast arrcast infer itemseq_exn k v s)).
     - left. exact (proj2 (replace_values_ki pycast arrcast infer itemseq_exn kvs s)).
-    - left. exact (proj2 (add_attribute_ki pycast arrcast infer name v s)).
+    - left. exact (proj2 (add_attribute_ki pycast arrcast infer name v s SC)).
     - left. rewrite read_frame. reflexivity.
   Qed.
 
   (* InvU: for models / linkers `names` holds no name twice *)
   Definition InvU (s : state) : Prop := kind s <> CVC -> NoDup (names s).
 
-  Theorem step_preserves_invU o s : Inv s -> InvU s -> InvU (fst (step o s)).
+  Theorem step_preserves_invU o s : in_scope (kind s) o -> Inv s -> InvU s -> InvU (fst (step o s)).
   Proof.
-    intros I U K'.
+    intros SC I U K'.
     assert (K : kind s <> CVC).
-    { destruct (good_span _ _ (step_good pycast arrcast infer astype_dt itemseq_exn o s)) as [_ E]. rewrite <- E. exact K'. }
-    destruct (step_names o s) as [E|[name [v [dt [_ [E M]]]]]]; rewrite E; [exact (U K)|].
+    { destruct (good_span _ _ (step_good pycast arrcast infer astype_dt itemseq_exn o s SC)) as [_ E]. rewrite <- E. exact K'. }
+    destruct (step_names o s SC) as [E|[name [v [dt [_ [E M]]]]]]; rewrite E; [exact (U K)|].
     apply nodup_snoc; [exact (U K)|]. apply mem_false in M. intros C. apply M. apply (proj2 I K). exact C.
   Qed.
 
-  Theorem reachable_invU ops : forall s, Inv s -> InvU s -> InvU (run ops s).
+  Theorem reachable_invU ops : forall s, Forall (in_scope (kind s)) ops -> Inv s -> InvU s -> InvU (run ops s).
   Proof.
-    induction ops as [|o ops IH]; intros s I U; simpl; [exact U|].
-    apply IH; [apply step_preserves_inv; exact I|apply step_preserves_invU; assumption].
+    induction ops as [|o ops IH]; intros s F I U; simpl; [exact U|].
+    destruct (scope_tail pycast arrcast infer astype_dt itemseq_exn _ _ _ F) as [Fo Fr].
+    apply IH; [exact Fr|apply step_preserves_inv; assumption|apply step_preserves_invU; assumption].
   Qed.
 
   (* hence: the rows of `values` (index for a container, names for a model) are pairwise different on every reachable object *)
@@ -1390,11 +1423,19 @@ Section RowNames.
     split; [|apply dup_free_nodup; apply negb_false_iff; exact DF].
     assert (N5 : names s5 = NAMES).
     { pose proof (init_vars_names NAMES ivs default d (set_names s4 NAMES)) as N. rewrite H5 in N. exact N. }
-    assert (KA : forall nm v sa sb ub, add_attribute pycast arrcast infer nm v sa = (sb, Ret ub) -> names sb = names sa).
-    { intros nm v sa sb ub E. pose proof (proj2 (add_attribute_ki pycast arrcast infer nm v sa)) as N. rewrite E in N. exact N. }
+    assert (KA : forall nm v sa sb ub, (forall k0, bookkeeping k0 nm = false) ->
+                 add_attribute pycast arrcast infer nm v sa = (sb, Ret ub) -> names sb = names sa).
+    { intros nm v sa sb ub B E. pose proof (proj2 (add_attribute_ki pycast arrcast infer nm v sa (B _))) as N. rewrite E in N. exact N. }
+    assert (BK : forall nm, nm = "lags" \/ nm = "leads" \/ nm = "endogenous" \/ nm = "check" \/ nm = "engine" -> forall k0, bookkeeping k0 nm = false).
+    { intros nm [->|[->|[->|[->| ->]]]] k0; destruct k0; reflexivity. }
     assert (N9 : names s9 = NAMES).
-    { rewrite (KA _ _ _ _ _ H9), (KA _ _ _ _ _ H8), (KA _ _ _ _ _ H7), (KA _ _ _ _ _ H6). exact N5. }
-    destruct k; [inversion H; subst; exact N9|rewrite (KA _ _ _ _ _ H); exact N9|inversion H; subst; exact N9].
+    { rewrite (KA _ _ _ _ _ (BK _ (or_intror (or_intror (or_intror (or_introl eq_refl))))) H9),
+              (KA _ _ _ _ _ (BK _ (or_intror (or_intror (or_introl eq_refl)))) H8),
+              (KA _ _ _ _ _ (BK _ (or_intror (or_introl eq_refl))) H7),
+              (KA _ _ _ _ _ (BK _ (or_introl eq_refl)) H6). exact N5. }
+    destruct k; [inversion H; subst; exact N9
+                |rewrite (KA _ _ _ _ _ (BK _ (or_intror (or_intror (or_intror (or_intror eq_refl))))) H); exact N9
+                |inversion H; subst; exact N9].
   Qed.
 End RowNames.
 
